@@ -42,6 +42,7 @@ THEOREMS = [
     "reprioritise", "profiles_end_profileless", "list_tuple_dict_consistent", "bool_eight_spellings",
     "replace_only_known", "text_roundtrip_partial",
     "c19_stale_refuted", "c19_fbsect_refuted", "c19_mkey_refuted", "c19_fmt_refuted", "c19_metanl_refuted",
+    "c19_clear_refuted", "replace_uses_current_vars",
 ]
 
 REQ = "From Verif Require Import Model.C19_Config.\nOpen Scope string_scope."
@@ -64,6 +65,10 @@ QUIRKS = {
 QUIRKS[16] = ("c19_meta_newline_on_readback",
               "update_from_file keeps the line breaks of a continued metadata value (only the entry value gets "
               "'\\n' -> ' '): a help text that write_to_file wraps is read back with '\\n' in it")
+
+QUIRKS[32] = ("c19_clear_keeps_profile_data",
+              "Configuration.clear() empties the sections and the variables but not the per-profile data: after the next "
+              "update every cleared section and entry is back")
 
 SECS = ["sa", "sb"]
 KEYS = ["k1", "k2", "k3"]
@@ -127,6 +132,10 @@ def t_op(o):
         return f"(OFallback (Some {t_cfg(o['fallback'])}))"
     if k == "vars":
         return f"(OVars {t_kvs(o['vars'])})"
+    if k == "clear_vars":
+        return "OClearVars"
+    if k == "clear":
+        return "OClear"
     raise ValueError(k)
 
 
@@ -262,6 +271,10 @@ def apply_op(c, o, workdir, counter):
         return guard(setf)
     if k == "vars":
         return guard(lambda: c.update_vars(dict(o["vars"])))
+    if k == "clear_vars":
+        return guard(c.clear_vars)
+    if k == "clear":
+        return guard(c.clear)
     raise ValueError(k)
 
 
@@ -545,7 +558,11 @@ def gen_op(rng, workdir, counter):
         return dict(op="master", master=rng.choice(SECS + [None, "nosuch"]))
     if r < 0.95:
         return dict(op="fallback", fallback=(None if rng.random() < 0.15 else gen_fallback(rng)))
-    return dict(op="vars", vars=rng.sample(VARS_POOL, rng.randrange(1, 4)))
+    if r < 0.975:
+        return dict(op="vars", vars=rng.sample(VARS_POOL, rng.randrange(1, 4)))
+    if r < 0.99:
+        return dict(op="clear_vars")
+    return dict(op="clear")
 
 
 def std_queries(rng, rich=True):
@@ -584,6 +601,30 @@ def textform_ok(case):
         if o["op"] == "file" and ("%" in o["text"] or "\t" in o["text"]):
             return False
     return True
+
+
+VAR_ALPHABET = [
+    dict(op="update", section="sa", key="k1", value="{yyyy}/{doy}", profile=None, source="s", meta=None, allow_new=True),
+    dict(op="update", section="sa", key="k2", value="{station}-{yyyy}:{nested}", profile=None, source="s", meta=None, allow_new=True),
+    dict(op="vars", vars=[("yyyy", "2021"), ("doy", "032")]),
+    dict(op="vars", vars=[("station", "zimm"), ("yyyy", "1999"), ("nested", "<{doy}>")]),
+    dict(op="clear_vars"),
+    dict(op="clear"),
+]
+VAR_QUERIES = [
+    dict(q="layout"),
+    dict(q="replaced", section="sa", key="k1", default=None, extra=[]),
+    dict(q="replaced", section="sa", key="k2", default=None, extra=[]),
+    dict(q="replaced", section="sa", key="k1", default="DEF", extra=[]),
+    dict(q="replaced", section="sa", key="k2", default=None, extra=[("doy", "365")]),
+    dict(q="get", key="k1", value=None, section="sa", default="dflt"),
+]
+
+
+def var_case(idx):
+    """Entries and variables interleaved: replacement uses the variables known at the time of the call, whatever the
+    time the entry was created (update / update_vars / clear_vars / clear in every order)."""
+    return dict(name="cfg", ops=[dict(VAR_ALPHABET[i]) for i in idx], queries=[dict(q) for q in VAR_QUERIES])
 
 
 def canon_sequences(length):
@@ -665,6 +706,12 @@ CORPUS = [
         dict(op="update", section="sa", key="k1", value="{unknown:>12}", profile=None, source="s", meta=None, allow_new=True),
         dict(op="update", section="sa", key="k2", value="{unknown:%Y}", profile=None, source="s", meta=None, allow_new=True)]),
 ]
+CORPUS += [
+    # entry, update_vars, clear_vars, update_vars: replacement must use the variables known now
+    dict(name="cfg", ops=[dict(VAR_ALPHABET[0]), dict(VAR_ALPHABET[2]), dict(VAR_ALPHABET[4]), dict(VAR_ALPHABET[3]), dict(VAR_ALPHABET[1])]),
+    # clear() then an update: the cleared entry must not come back
+    dict(name="cfg", ops=[dict(VAR_ALPHABET[0]), dict(VAR_ALPHABET[5]), dict(VAR_ALPHABET[1])]),
+]
 CORPUS_QUERIES = [
     dict(q="layout"), dict(q="get", key="k1", value=None, section="sa", default=None),
     dict(q="get", key="k1", value=None, section="sa", default="dflt"),
@@ -736,6 +783,14 @@ def run(ctx):
             ext = rng.choice([("U", rng.choice(SECS), rng.choice(KEYS), rng.choice([None] + PROFS)),
                               ("P", tuple(rng.sample(PROFS, rng.randrange(0, 4))))])
             add(seq_case(seq + (ext,), rng.randrange(0, 4), rng), "sampled5")
+
+    # ---- V. variables as state: every sequence over {2 entries, 2 update_vars, clear_vars, clear}
+    var_len = 2 if scale < 1 else (3 if ctx.quick() else 5)
+    for length in range(1, var_len + 1):
+        for idx in itertools.product(range(len(VAR_ALPHABET)), repeat=length):
+            add(var_case(idx), f"vars{length}")
+    for _ in range(int(scale * (250 if ctx.quick() else 0))):
+        add(var_case([rng.randrange(len(VAR_ALPHABET)) for _ in range(rng.choice([4, 4, 5, 6]))]), "vars-sampled")
 
     # ---- T. text form: long values with hyphenated words on the wrap limit
     for i in range(int(scale * (150 if ctx.quick() else 1200))):
